@@ -16,6 +16,17 @@ from mirsym.session import hexs, unhexs
 from .common import *
 
 
+def comment_text_open(ctx, n_inner):
+    """a block comment the source never closes: '/*' + X up to the end of the text (the lexer reads it as one comment token, not as an error).
+    X holds no closing delimiter (it would end the comment) and no opening one (nesting is excluded as for closed comments)"""
+    inner = sym_str(ctx, 't', n_inner)
+    for i in range(n_inner - 1):
+        a, b = inner.chars[i], inner.chars[i + 1]
+        ctx.assume(z3.Not(z3.And(a == ord('*'), b == ord('/'))))
+        ctx.assume(z3.Not(z3.And(a == ord('/'), b == ord('*'))))
+    return Str((ord('/'), ord('*')) + inner.chars), inner
+
+
 def comment_text(ctx, n_inner):
     """a block comment token: '/*' + X + '*/' where the lexer's scan (state machine over '*/' and '/*') ends exactly at the final '/':
     X contains neither delimiter as a substring and does not end with '/' (which would open a nested comment with the closing '*')"""
@@ -94,10 +105,10 @@ def explore_block(S, n_inner_max, cols, want=('C03', 'C05', 'C06')):
     core = S.core
     fn = S.find_fn(core, 'block_comment')
     found = []
-    for n in range(0, n_inner_max + 1):
-        def body(ctx, n=n):
+    for n, closed in [(n_, True) for n_ in range(0, n_inner_max + 1)] + [(n_, False) for n_ in range(0, n_inner_max + 1) if 'C05' in want or 'C06' in want]:
+        def body(ctx, n=n, closed=closed):
             m = S.machine(core, STD, ctx)
-            t, inner = comment_text(ctx, n)
+            t, inner = comment_text(ctx, n) if closed else comment_text_open(ctx, n)
             node = Node(kt.k('BlockComment'), text=t)
 
             def describe(mdl):
@@ -125,7 +136,7 @@ def explore_block(S, n_inner_max, cols, want=('C03', 'C05', 'C06')):
                 ctx.must_hold(wk in ('align', 'hang', 'text') and (wk != 'hang' or wn == 1), 'C06:comment-doc-shape', describe)
                 if len(ins) > 1:
                     ctx.witness('multi-line comment')
-            if 'C03' in want and wk in ('align', 'hang') and len(outs) == len(ins):
+            if 'C03' in want and closed and wk in ('align', 'hang') and len(outs) == len(ins):
                 ctx.witness('style ' + wk)
                 for col in cols:
                     indent = col + (1 if wk == 'hang' else 0)
@@ -161,9 +172,9 @@ def explore_block(S, n_inner_max, cols, want=('C03', 'C05', 'C06')):
                         same = b_and(*conds)
                     ctx.must_hold(same, 'C03:comment-realigned-differently', lambda mdl: dict(describe(mdl), column=col, second_input=t2.concrete(mdl)))
 
-        ob, ex = S.explore('comment.block[inner=%d]' % n,
-                           'block_comment on every "/*" + %d code points + "*/": panic freedom, text preserved line by line modulo leading/trailing '
-                           'blanks, and a second pass over the laid-out comment (columns %r) yields the same text' % (n, list(cols)),
+        ob, ex = S.explore('comment.block[inner=%d%s]' % (n, '' if closed else ',unterminated'),
+                           'block_comment on every "/*" + %d code points' % n + (' + "*/"' if closed else ' (never closed: the comment runs to the end of the text)') + ': panic freedom, text preserved line by line modulo leading/trailing '
+                           'blanks, and a second pass over the laid-out comment (columns %r) yields the same text' % (list(cols),),
                            body, bounds=dict(inner_code_points=n, columns=list(cols)), parallel=True)
         for lab, mdl, info in ex.violations:
             found.append((lab, info))
@@ -242,7 +253,7 @@ def confirm(S, lab, info):
     if lab.endswith('panic'):
         r = S.driver.call('block_comment', hexs(text), '-')
         if r[0] in ('panic', 'abort'):
-            src = '#{\n  ' + text + '\n}\n'
+            src = '#{\n  ' + text + '\n}\n' if text.endswith('*/') else 'a ' + text
             f = S.driver.call('format', hexs(src), 80, 2, 0)
             return dict(what='block_comment panics on %s' % show(text), unit=dict(fn='comment::block_comment', text=text),
                         api=dict(api='Typstyle::format_content', source=src, result=f[0]))
